@@ -64,10 +64,11 @@ type mPath struct {
 	cells    map[string]mval
 	modeRead bool
 	stack    []*ssa.Function
+	writes   []token.Pos // stdout writes executed so far on this path (stdout-flow walks)
 }
 
 func (pt *mPath) clone() *mPath {
-	q := &mPath{cells: make(map[string]mval, len(pt.cells)), modeRead: pt.modeRead, stack: append([]*ssa.Function(nil), pt.stack...)}
+	q := &mPath{cells: make(map[string]mval, len(pt.cells)), modeRead: pt.modeRead, stack: append([]*ssa.Function(nil), pt.stack...), writes: append([]token.Pos(nil), pt.writes...)}
 	for k, v := range pt.cells {
 		q.cells[k] = v
 	}
@@ -90,6 +91,52 @@ type modeWalker struct {
 	ends     map[string]modeEnd
 	overflow bool
 	inlined  map[string]bool
+	so       *stdoutCfg // when set: count stdout writes per path (O19.5) instead of judging the mode flag
+}
+
+// stdoutCfg configures a stdout-flow walk: which calls write to stdout, which in-repo functions (transitively) contain
+// such a call and are therefore followed, and where each path of the action ended with how many writes.
+type stdoutCfg struct {
+	isWrite func(*ssa.Call) bool
+	has     map[*ssa.Function]bool
+	ends    []soEnd
+}
+
+type soEnd struct {
+	Class  string // "fail", "success", "possibly-nil"
+	Pos    token.Pos
+	Writes []token.Pos
+}
+
+func (mw *modeWalker) endPath(cls string, pos token.Pos, pt *mPath) {
+	mw.end(cls, pos)
+	if mw.so != nil {
+		mw.so.ends = append(mw.so.ends, soEnd{cls, pos, append([]token.Pos(nil), pt.writes...)})
+	}
+}
+
+// runStdoutFlow enumerates the paths of a command action and reports, per path end, whether the action's error is
+// certainly nil / certainly non-nil / unknown there and which stdout writes ran before it.
+func runStdoutFlow(p *core.Program, action *ssa.Function, cfg *stdoutCfg) *modeWalker {
+	mw := &modeWalker{p: p, accepted: map[string]bool{}, maxSteps: 400000, ends: map[string]modeEnd{}, inlined: map[string]bool{}, so: cfg}
+	if action == nil || len(action.Blocks) == 0 {
+		return mw
+	}
+	fr := mw.newFrame(action, nil, nil)
+	pt := &mPath{cells: map[string]mval{}, modeRead: true}
+	mw.walk(fr, pt, action.Blocks[0], 0, nil, map[*ssa.BasicBlock]int{}, 0, func(fr *mFrame, pt *mPath, res []mval, pos token.Pos) {
+		cls := "possibly-nil"
+		if len(res) > 0 {
+			switch res[len(res)-1].k {
+			case mvNonNil:
+				cls = "fail"
+			case mvNil:
+				cls = "success"
+			}
+		}
+		mw.endPath(cls, pos, pt)
+	})
+	return mw
 }
 
 func runModeFlow(p *core.Program, action *ssa.Function, accepted map[string]bool) *modeWalker {
@@ -536,7 +583,7 @@ func (mw *modeWalker) walk(fr *mFrame, pt *mPath, b *ssa.BasicBlock, i int, prev
 			return
 		case *ssa.Panic:
 			if pt.modeRead {
-				mw.end("fail", in.Pos())
+				mw.endPath("fail", in.Pos(), pt)
 			}
 			return
 		}
@@ -564,6 +611,9 @@ func (mw *modeWalker) callInline(fr *mFrame, pt *mPath, c *ssa.Call, b *ssa.Basi
 		}
 	}
 	setRes := func(r mval) { fr.env[c] = r }
+	if mw.so != nil && mw.so.isWrite(c) {
+		pt.writes = append(pt.writes, c.Pos())
+	}
 	if callee != nil {
 		org := callee
 		if o := callee.Origin(); o != nil {
@@ -596,9 +646,9 @@ func (mw *modeWalker) callInline(fr *mFrame, pt *mPath, c *ssa.Call, b *ssa.Basi
 					}
 				}
 				if failing {
-					mw.end("fail", c.Pos())
+					mw.endPath("fail", c.Pos(), pt)
 				} else {
-					mw.end("success", c.Pos())
+					mw.endPath("success", c.Pos(), pt)
 				}
 			}
 			return true // the path ends here
@@ -622,6 +672,9 @@ func (mw *modeWalker) callInline(fr *mFrame, pt *mPath, c *ssa.Call, b *ssa.Basi
 				if tainted(f) {
 					follow = true
 				}
+			}
+			if mw.so != nil && mw.so.has[callee] {
+				follow = true
 			}
 			for _, s := range pt.stack {
 				if s == callee {
